@@ -620,6 +620,16 @@ def plan_c07(wd, rng, T, mat):
                               {"t": "burst", "n": 400000 if T else 40000, "nodes": 2100000 if T else 330000, "positions": bpos, "go": gop}])
     mk(binary, "binary", [{"t": "position", "fen": START, "moves": list(SHUFFLE)}, {"t": "go", "depth": 2}, {"t": "go", "movetime": 0},
                            {"t": "go", "wtime": 50, "btime": 50, "winc": 0, "binc": 0}])
+    # debug mode switches on extra reporting code (statistics of the search so far): quiet positions, in which some of those
+    # statistics are still empty after the first iteration, and ordinary ones, every limit kind
+    quiet = [(START, []), (START, ["e2e4"]), ("4k3/8/8/8/8/8/4P3/4K3 w - - 0 1", []), ("4k3/4p3/8/8/8/8/8/4K3 b - - 0 1", [])]
+    quiet += [(g["fen"], []) for g in rng.sample(mat.items, min(len(mat.items), 6 if T else 2))]
+    for fen, moves in quiet:
+        steps = [{"t": "debug", "on": True}, {"t": "position", "fen": fen, "moves": moves}]
+        for g in ({"depth": 1}, {"depth": 2}, {"movetime": 20}, {"wtime": 300, "btime": 300, "winc": 0, "binc": 0}, {"infinite": True, "stop_after_ms": 20}):
+            steps.append(dict(g, t="go"))
+        mk(inproc, "inproc", steps)
+        mk(binary, "binary", [s for s in steps])
     return inproc, binary, sweeps
 
 
@@ -673,7 +683,7 @@ def plan_c09(wd, rng, T, mat, lite=False):
         mk(inproc, "inproc", steps)
         bsteps = [s for s in steps if s["t"] in ("position", "go")]
         mk(binary, "binary", bsteps)
-    for g in rng.sample(heavy, min(len(heavy), 10 if T else 1)):
+    for g in rng.sample(heavy, min(len(heavy), 10 if T else 3)):
         mk(binary, "binary", [{"t": "position", "fen": g["fen"], "moves": []}, {"t": "quit_during_search", "after_ms": rng.choice([5, 60, 400])}])
     # a position command that arrives while the search is running is dropped by the engine: after the interruption it still holds its own
     for g in rng.sample(heavy, min(len(heavy), 8 if T else 2)):
